@@ -237,30 +237,8 @@ def extract_automations(ctx):
 
 
 def prepare(ctx):
-    _guard_vlib()
     ctx.notes.append("SAT back end: %s" % ("kissat (external)" if SOLVER else "cbmc built-in (kissat not found)"))
     extract_automations(ctx)
-
-
-def _guard_vlib():
-    """vlib.run_obligation counts only cbmc properties with status FAILURE; when the SAT solver runs out of memory cbmc
-    reports status ERROR for the undecided properties and vlib calls the obligation 'pass' (seen here: an 8 GB run of
-    clearSlot with a symbolic index 'passed' with all its assertions in status ERROR). Until vlib is repaired (reported),
-    C19 wraps the runner: any property that is neither SUCCESS nor FAILURE makes the obligation undecided (exit 2)."""
-    if getattr(vlib.run_obligation, "_c19_guard", False):
-        return
-    inner = vlib.run_obligation
-
-    def run_obligation(ctx, obl, want_trace=False, trace_props=()):
-        r = inner(ctx, obl, want_trace, trace_props)
-        odd = [p.get("property", "?") for p in (getattr(r, "raw_results", None) or [])
-               if p.get("status") not in ("SUCCESS", "FAILURE")]
-        if odd and r.status == "pass" and not want_trace:
-            r.status = "error"
-            r.detail = "cbmc left %d properties undecided (status ERROR/UNKNOWN, e.g. %s): %s" % (len(odd), odd[0], r.detail[:200])
-        return r
-    run_obligation._c19_guard = True
-    vlib.run_obligation = run_obligation
 
 
 OPS = "harness/C19/ops.c"
